@@ -91,7 +91,22 @@ def run_tlc(module, cfg=None, workers=4, env=None, timeout=3600, simulate=None, 
     r.wall = time.time() - t0
     r.output = out
     r.rc = rc
+    # TLC's pretty printer breaks a long tuple after its first element (it does so for strings without
+    # escapes, e.g. a JSON list of numbers):  << "TAG",\n   "...." >>   -> put it back on one line
+    out_lines = []
+    pending = None
     for line in out.splitlines():
+        m2 = re.match(r'^<< "([A-Z_]+)",$', line)
+        if m2:
+            pending = m2.group(1)
+            continue
+        if pending is not None:
+            m3 = re.match(r'^\s+"(.*)" >>$', line)
+            if m3:
+                line = f'<<"{pending}", "{m3.group(1)}">>'
+            pending = None
+        out_lines.append(line)
+    for line in out_lines:
         m = _PRINT.match(line)
         if m:
             try:
